@@ -94,3 +94,36 @@ func H_C01_invoiceBinding() {
 		zzverif.Assert(wt.txID == s.OpeningTxBroadcasted.TxId && wt.vout == s.OpeningTxBroadcasted.ScriptOut && wt.swapID == s.GetId().String(), "C01.watch_names_announced_output")
 	}
 }
+
+// H_C05_anchorSurvivesRestart: every Bitcoin window check of a taker is relative to the height at which it
+// started waiting (StartingBlockHeight).  The composition argument of C05 needs that height to be the one
+// recorded when the wait began: a restart - the chain at an arbitrary later height, recovery re-running
+// the state's action - must not move it, neither in memory nor in the stored record.  (The Liquid anchor
+// has its own immutability obligations under C13.)
+// Bounds: taker in AwaitTxBroadcastedMessage / AwaitTxConfirmation, both swap directions, no injected
+// faults, one restart.
+func H_C05_anchorSurvivesRestart() {
+	role, st := rOutSender, State_SwapOutSender_AwaitTxBroadcastedMessage
+	switch zzverif.Choice("state", 4) {
+	case 1:
+		st = State_SwapOutSender_AwaitTxConfirmation
+	case 2:
+		role, st = rInReceiver, State_SwapInReceiver_AwaitTxBroadcastedMessage
+	case 3:
+		role, st = rInReceiver, State_SwapInReceiver_AwaitTxConfirmation
+	}
+	sc := vBuild(role, st, false, 7)
+	w := sc.env.w
+	w.maxFaults = 0
+	w.maxPayAttempts = 1
+	d := sc.sm.Data
+	start0 := d.StartingBlockHeight
+	zzverif.Assume(start0 != 0)
+	sc.env.store.recs[sc.id] = vSnapshot(sc.sm)
+	sc.vRestart()
+	zzverif.Reach("c05.restarted")
+	zzverif.Assert(sc.sm.Data.StartingBlockHeight == start0, "C05.start_height_survives_restart")
+	if rec, ok := sc.env.store.recs[sc.id]; ok {
+		zzverif.Assert(rec.Data.StartingBlockHeight == start0, "C05.stored_start_height_survives_restart")
+	}
+}
